@@ -176,6 +176,21 @@ def begin (s : Sys) (t : Nat) (lvl : Level) : Sys × Out :=
 def removeLinks (all : Store) (vs : List Ver) : Store :=
   fun k => (all k).filter (fun l => ¬ vs.any (fun v => v.cid = l.cid))
 
+/-- keys the transaction wrote (`tx.Files()`; non-empty lists) -/
+def written (dom : List Key) (st : Store) : List Key := dom.filter (fun k => st k ≠ [])
+/-- the last version of every written key: these are published -/
+def lastsOf (dom : List Key) (st : Store) : List Ver := (written dom st).filterMap (fun k => latest (st k))
+/-- the earlier versions of every written key: superseded inside the transaction -/
+def oldsOf (dom : List Key) (st : Store) : List Ver := (written dom st).flatMap (fun k => (st k).dropLast)
+/-- the write-write conflict test of `UpdateTx` -/
+def conflictOf (tx : TxRec) (dom : List Key) (main st : Store) : Bool :=
+  tx.level.snapshot && (written dom st).any (fun k =>
+    match latest (main k) with
+    | some m => m.seq > tx.seq
+    | none => false)
+/-- re-tagging of a published version: main transaction, the commit's sequence number -/
+def retag (sq : Nat) (v : Ver) : Ver := { v with tx := mainTx, seq := sq }
+
 /-- `core.UpdateTx` (commit), one critical section under the main and all-store write locks:
     conflict test per written key against `main.Latest`; the last version of every written key is
     published (re-tagged to main, all with ONE fresh sequence number, one Badger batch), the earlier
@@ -185,24 +200,19 @@ def updateTx (s : Sys) (tx : TxRec) : Sys × List Ver × Bool :=
   match s.txs tx.id with
   | none => (s, [], true)
   | some st =>
-    let s := s.dropTxStore tx.id
-    let written := s.dom.filter (fun k => st k ≠ [])
-    let conflict := tx.level.snapshot && written.any (fun k =>
-      match latest (s.main k) with
-      | some m => m.seq > tx.seq
-      | none => false)
-    let lasts := written.filterMap (fun k => latest (st k))
-    let olds := written.flatMap (fun k => (st k).dropLast)
-    let s := { s with all := removeLinks s.all (lasts ++ olds) }
-    if conflict then (s, olds ++ lasts, false)
-    else if lasts.isEmpty then (s, olds, true)
+    let lasts := lastsOf s.dom st
+    let olds := oldsOf s.dom st
+    let s' := { s with txs := fun t' => if t' = tx.id then none else s.txs t',
+                       all := removeLinks s.all (lasts ++ olds) }
+    if conflictOf tx s.dom s.main st then (s', olds ++ lasts, false)
+    else if lasts.isEmpty then (s', olds, true)
     else
-      let sq := s.counter + 1
-      let pub := lasts.map (fun v => ({ v with tx := mainTx, seq := sq } : Ver))
-      let main' : Store := fun k => s.main k ++ pub.filter (·.key = k)
-      let all' : Store := fun k => s.all k ++ pub.filter (·.key = k)
-      let recs' := s.recs.map (fun r => match pub.find? (·.cid = r.cid) with | some p => p | none => r)
-      ({ s with counter := sq, main := main', all := all', recs := recs' }, olds, true)
+      let pub := lasts.map (retag (s.counter + 1))
+      ({ s' with counter := s.counter + 1,
+                 main := fun k => s.main k ++ pub.filter (·.key = k),
+                 all := fun k => s'.all k ++ pub.filter (·.key = k),
+                 recs := s.recs.map (fun r => match pub.find? (·.cid = r.cid) with | some p => p | none => r) },
+       olds, true)
 
 /-- `transaction.Commit` -/
 def commit (s : Sys) (t : Nat) : Sys × Out :=
